@@ -194,6 +194,57 @@ def two_interrupts(res, stack, servers, cfg, tier, rng):
                                 res.violation("two-interrupts:" + key, msg, c2)
 
 
+def parked_pair(res, tier, rng):
+    """Two connections of different ages idle in the pool (what concurrent callers leave behind), then a slow call during
+    which the other one crosses the idle timeout: wherever the library closes that expired connection (at the next
+    checkout, or when the slow call releases), an interrupt in that close() must not cost a pool slot."""
+    servers = [("mc1", 11211)]
+    for cfg in ({"max_pool_size": 2, "pool_idle_timeout": 5}, {"max_pool_size": 3, "pool_idle_timeout": 5, "ignore_exc": True}):
+        for op in (("get", ("h1",), {}), ("set", ("k-set", b"v"), {"noreply": False}), ("delete", ("h1",), {})):
+            for age_gap in (3, 6):
+                ops = [op] + [p for _, p in catalogue.PROBES] + [p for _, p in catalogue.PROBES[:2]]
+                case = {"stack": "pooled", "servers": servers, "cfg": cfg, "label": "parked:" + op[0], "ops": ops, "faulted": 0,
+                        "faults": {}, "seg": ("whole",), "slow": {0: 6}, "parked": age_gap}
+
+                def before_call(w, i, op_, case=case):
+                    if i != 0:
+                        return
+                    pool = w.obj.client_pool
+                    w.net.begin_call(("park", 0))
+                    a, b = pool.get(), pool.get()
+                    a.get("h3")
+                    b.get("h3")
+                    pool.release(a)
+                    w.clock.advance(case["parked"])
+                    pool.release(b)
+                    w.net.end_call()
+                o0 = history.execute(case, before_call=before_call)
+                sites = driver.socket_calls_by_call(o0.net)
+                plans = []
+                for call_i in (0, 1):
+                    for idx, typ, sid in sites.get(call_i, []):
+                        for kind in (("kbint", "greenlet") if tier == "quick" else fakenet.BASE_EXC_KINDS):
+                            plans.append({(call_i, idx): kind})
+                for plan in plans:
+                    c = dict(case)
+                    c["faults"] = plan
+                    o = history.execute(c, before_call=before_call)
+                    (fc, _fi), = plan.keys()
+                    c2 = dict(c)
+                    c2["faulted"] = fc
+                    viol, follow_io, reached = judge(c2, o)
+                    fired = len(o.net.fired)
+                    res.count("interrupts_fired", fired)
+                    res.count("followup_recv_calls", follow_io)
+                    res.count("interrupt_reached_caller", reached)
+                    res.count("parked_pair_histories", 1 if fired else 0)
+                    for f in o.net.fired:
+                        res.count("site:" + f[2])
+                    res.case(("parked", tuple(sorted(cfg.items())), op[0], age_gap, tuple(sorted(plan.items()))) if fired and follow_io else None)
+                    for key, msg in viol:
+                        res.violation("parked-pair:" + key, msg, c)
+
+
 EXTRA_OPS = [("get-illegal-key", ("get", ("bad key",), {})), ("set-illegal-key", ("set", ("bad key", b"v"), {"noreply": False})),
              ("get_many-illegal-key", ("get_many", (["h1", "bad key"],), {}))]
 
@@ -219,6 +270,8 @@ def shard(tier, seed, idx, n):
     for si, (stack, servers, cfg) in enumerate(STACKS):
         if si % n == idx:
             two_interrupts(res, stack, servers, cfg, tier, random.Random(seed + si))
+    if idx == 11 % n:
+        parked_pair(res, tier, random.Random(seed))
     res.extra["exhaustive"] = True
     res.extra["exhaustive_part"] = "every socket call of every catalogue op x 3 interrupt kinds (single-operation histories)"
     return res
@@ -226,6 +279,9 @@ def shard(tier, seed, idx, n):
 
 def replay(case):
     res = common.Result()
+    if case.get("parked"):
+        res.inconclusive.append("parked-pair cases are replayed by re-running the check (the pool is prepared by a harness hook)")
+        return res
     o = history.execute(case)
     viol, follow_io, reached = judge(case, o)
     res.case(("replay",))
